@@ -15,11 +15,11 @@ Proof. exact slice_abs. Qed.
    ranges of the chunks handed to handlers are contiguous, start at the node's first byte and end at its last
    (bytes of a character that straddles a write boundary are attributed to the chunk that delivers the character). *)
 Theorem C14_text_chunk_ranges_tile_their_node :
-  forall (dstate : Type) (dnew : dstate) ddecode valid_up_to Wpart Wfin pend,
-  @decoder_laws dstate dnew ddecode valid_up_to Wpart Wfin pend ->
+  forall (dstate A : Type) (dnew : dstate) ddecode valid_up_to (a0 : A) run fin abs,
+  @decoder_laws dstate A dnew ddecode valid_up_to a0 run fin abs ->
   forall start p pieces,
   tiles (text_node dstate dnew ddecode valid_up_to (p :: pieces) start) start (start + length (concat (p :: pieces))).
-Proof. exact (fun dstate dnew ddecode v Wp Wf pend L start p pieces => proj1 (proj2 (text_node_correct dnew ddecode v Wp Wf pend L start p pieces))). Qed.
+Proof. exact (fun dstate A dnew ddecode v a0 run fin abs L start p pieces => proj1 (proj2 (text_node_correct dnew ddecode v a0 run fin abs L start p pieces))). Qed.
 (* NOT proved here: monotonicity/disjointness of successive ranges and the attribute ranges as corollaries of the tiling
    invariant; exercised by correspondence (every source_location() value) and oracle_c14 (slices the original input). *)
 Print Assumptions C14_absolute_range_denotes_the_lexeme.
